@@ -387,6 +387,7 @@ fn body(c: &mut Inj, thorough: bool) -> Result<(), Violation> {
             let iface = &mut c.node.iface;
             guard("Interface::set_hardware_addr", || iface.set_hardware_addr(hw))?;
             c.hw_changed = true;
+            c.view.hw_addr = if c.medium == Medium::Ethernet { V_MAC_2.to_vec() } else { V_LL8_2.to_vec() };
             c.stats.inc("inj.hardware-address-changed");
         }
         let forced = c.script.pop();
